@@ -5,6 +5,12 @@
 //!   dt <coef bits> <text> <nvars> { <name> <exp bits> <text> }*   Display for Term
 //!   dm <n> { <coef bits> <text> }*                           LinearModel::to_polynomial_string
 //!
+//! Any request may end with ` | fmt <flags> [<prec|->]` (ignored by the Lean driver): the harness then formats with
+//! additional formatter flags (`{:+}`, `{:10}`, `{:<8}`, `{:>30}`, `{:*^12}`, `{:+012}`, `{:#}`; for `dt` also a
+//! precision).  The printers of the repository ignore everything but the precision (Term ignores the precision too),
+//! so the model's answer is the answer without flags; the property's oracle only judges what the statement speaks
+//! of (flags 0 = precision only).
+//!
 //! `<text>` is what Rust's formatter printed for that single number (`{}` / `{:.p}` of the magnitude for the
 //! polynomial printers, of the signed value for Term and the model string) — the Lean model takes the
 //! spelling of numbers as given and must reproduce the sign / spacing / elision / trimming rules.
@@ -33,20 +39,52 @@ fn read_prec(t: &mut Toks) -> Option<usize> {
     t.tok().parse::<usize>().ok()
 }
 
-fn display_simple(p: &SimplePolynomial, prec: Option<usize>) -> String {
-    match prec {
-        Some(k) => format!("{:.*}", k, p),
-        None => format!("{}", p),
+/// `format!` with the formatter flags of menu entry `flags` and an optional precision
+fn display_flagged<T: std::fmt::Display>(p: &T, prec: Option<usize>, flags: u32) -> String {
+    match (flags, prec) {
+        (1, None) => format!("{:+}", p),
+        (1, Some(k)) => format!("{:+.*}", k, p),
+        (2, None) => format!("{:10}", p),
+        (2, Some(k)) => format!("{:10.*}", k, p),
+        (3, None) => format!("{:<8}", p),
+        (3, Some(k)) => format!("{:<8.*}", k, p),
+        (4, None) => format!("{:>30}", p),
+        (4, Some(k)) => format!("{:>30.*}", k, p),
+        (5, None) => format!("{:*^12}", p),
+        (5, Some(k)) => format!("{:*^12.*}", k, p),
+        (6, None) => format!("{:+012}", p),
+        (6, Some(k)) => format!("{:+012.*}", k, p),
+        (7, None) => format!("{:#}", p),
+        (7, Some(k)) => format!("{:#.*}", k, p),
+        (8, None) => p.to_string(),
+        (_, None) => format!("{}", p),
+        (_, Some(k)) => format!("{:.*}", k, p),
     }
 }
-fn display_inter(p: &IntermediatePolynomial, prec: Option<usize>) -> String {
-    match prec {
-        Some(k) => format!("{:.*}", k, p),
-        None => format!("{}", p),
+
+fn display_simple(p: &SimplePolynomial, prec: Option<usize>, flags: u32) -> String {
+    display_flagged(p, prec, flags)
+}
+fn display_inter(p: &IntermediatePolynomial, prec: Option<usize>, flags: u32) -> String {
+    display_flagged(p, prec, flags)
+}
+
+/// the ` | fmt <flags> [<prec|->]` suffix
+fn read_suffix(line: &str) -> (&str, u32, Option<usize>) {
+    match line.split_once(" | ") {
+        Some((head, tail)) => {
+            let mut t = tail.split_ascii_whitespace();
+            assert_eq!(t.next(), Some("fmt"));
+            let flags = t.next().and_then(|x| x.parse::<u32>().ok()).unwrap_or(0);
+            let prec = t.next().and_then(|x| x.parse::<usize>().ok());
+            (head, flags, prec)
+        }
+        None => (line, 0, None),
     }
 }
 
 pub fn run(line: &str) -> Obs {
+    let (line, flags, term_prec) = read_suffix(line);
     let mut t = Toks::new(line);
     match t.tok() {
         "ds" => {
@@ -61,7 +99,7 @@ pub fn run(line: &str) -> Obs {
             }
             let p = SimplePolynomial { coefficients, variable };
             match catch(|| {
-                let text = display_simple(&p, prec);
+                let text = display_simple(&p, prec, flags);
                 let back = SimplePolynomial::parse(&text);
                 format!("{} # {}", req_string(&text), crate::c01::show_parsed(&back))
             }) {
@@ -73,7 +111,7 @@ pub fn run(line: &str) -> Obs {
             let prec = read_prec(&mut t);
             let p = read_inter_items(&mut t);
             match catch(|| {
-                let text = display_inter(&p, prec);
+                let text = display_inter(&p, prec, flags);
                 let back = IntermediatePolynomial::parse(&text);
                 format!("{} # {}", req_string(&text), crate::c02::show_parsed(&back))
             }) {
@@ -94,7 +132,7 @@ pub fn run(line: &str) -> Obs {
             }
             let term = Term { coefficient, variables };
             match catch(|| {
-                let text = format!("{}", term);
+                let text = display_flagged(&term, term_prec, flags);
                 let back = IntermediatePolynomial::parse(&text);
                 format!("{} # {}", req_string(&text), crate::c02::show_parsed(&back))
             }) {
@@ -256,6 +294,261 @@ pub fn generate(seed: u64, thorough: bool, emit: &mut dyn FnMut(String)) {
                 s.push_str(&format!(" {} {}", rbits(*c), req_string(&format!("{:.5}", c))));
             }
             emit(s);
+        }
+    }
+    generate_hardening(seed, thorough, emit);
+}
+
+// ------------------------------------------------------------------------------------ hardening families
+
+type TermSpec = (f64, Vec<(String, f64)>);
+
+fn req_ds(prec: Option<usize>, var: Option<char>, cs: &[f64]) -> String {
+    let mut s = format!("ds {} {} {}", prec_tok(prec), var.map(|c| format!("{}", c as u32)).unwrap_or("-".into()), cs.len());
+    for c in cs {
+        s.push_str(&format!(" {} {}", rbits(*c), req_string(&fmt_num(c.abs(), prec))));
+    }
+    s
+}
+
+fn term_items(t: &TermSpec, prec: Option<usize>, coef_abs: bool) -> String {
+    let c = if coef_abs { t.0.abs() } else { t.0 };
+    let mut s = format!("{} {} {}", rbits(t.0), req_string(&fmt_num(c, prec)), t.1.len());
+    for (name, e) in &t.1 {
+        s.push_str(&format!(" {} {} {}", req_string(name), rbits(*e), req_string(&fmt_num(*e, prec))));
+    }
+    s
+}
+
+fn req_di(prec: Option<usize>, terms: &[TermSpec]) -> String {
+    let mut s = format!("di {} {}", prec_tok(prec), terms.len());
+    for t in terms {
+        s.push(' ');
+        s.push_str(&term_items(t, prec, true));
+    }
+    s
+}
+
+/// Term ignores every formatter flag, the precision included: the number texts are always the default ones
+fn req_dt(t: &TermSpec) -> String {
+    format!("dt {}", term_items(t, None, false))
+}
+
+fn req_dm(cs: &[f64]) -> String {
+    let mut s = format!("dm {}", cs.len());
+    for c in cs {
+        s.push_str(&format!(" {} {}", rbits(*c), req_string(&format!("{:.5}", c))));
+    }
+    s
+}
+
+/// a value next to `base` at distance ~10^-k, on either side
+fn near(rng: &mut Rng, base: f64, k: i32) -> f64 {
+    let d = rng.uniform(0.3, 0.99) * 10f64.powi(-k);
+    base + if rng.chance(1, 2) { d } else { -d }
+}
+
+/// variable letters in byte order (the parser sorts the variables of a term that way)
+fn letters_subset(rng: &mut Rng, max: usize) -> Vec<String> {
+    let pool = ['A', 'K', 'X', 'Z', 'a', 'b', 'k', 't', 'x', 'y', 'z'];
+    let mut out: Vec<String> = Vec::new();
+    for l in pool {
+        if out.len() < max && rng.chance(1, 3) {
+            out.push(l.to_string());
+        }
+    }
+    out
+}
+
+fn all_precs() -> Vec<Option<usize>> {
+    let mut v = vec![None];
+    v.extend((0..=17).map(Some));
+    v
+}
+
+fn generate_hardening(seed: u64, thorough: bool, emit: &mut dyn FnMut(String)) {
+    let mut rng = Rng::new(seed ^ 0xC17_5CA1E);
+    let precs = all_precs();
+    let rounds = if thorough { 12 } else { 1 };
+    // ---- (1) exponents next to 1 and 0 at every distance 10^-1..10^-17 (the elision test must be exact), signed zero
+    //      exponents, negative exponents: each with every precision
+    for _ in 0..rounds {
+        for k in 1..=17 {
+            for base in [1.0f64, 0.0, -1.0, 2.0] {
+                for prec in &precs {
+                    let e = near(&mut rng, base, k);
+                    let c = if rng.chance(1, 2) { gen_coef(&mut rng) } else { *rng.pick(&[1.0, -1.0, 2.0, -0.5]) };
+                    let mut t: TermSpec = (c, vec![(rng.pick(&["x", "y", "t", "A"]).to_string(), e)]);
+                    if rng.chance(1, 3) {
+                        let (b2, k2) = (*rng.pick(&[1.0, 0.0]), rng.range(1, 17) as i32);
+                        t.1.push(("z".to_string(), near(&mut rng, b2, k2)));
+                    }
+                    let second: TermSpec = (gen_coef(&mut rng), vec![("x".to_string(), gen_exp(&mut rng))]);
+                    emit(req_di(*prec, &[t.clone(), second]));
+                    if prec.is_none() {
+                        emit(req_dt(&t));
+                    }
+                }
+            }
+        }
+        // the immediate binary64 neighbours of 1, -1 and 0 (coefficients and exponents), default formatting and {:.17}
+        for d in [1i64, -1, 2, -2, 4, -4, 1 << 20, -(1 << 20)] {
+            for base in [1.0f64, -1.0] {
+                let v = f64::from_bits((base.to_bits() as i64 + d) as u64);
+                for prec in [None, Some(17), Some(16), Some(15)] {
+                    emit(req_ds(prec, Some('x'), &[v, v, -v]));
+                    emit(req_di(prec, &[(v, vec![("x".to_string(), v)]), (-v, vec![("y".to_string(), -v)]), (1.0, vec![("z".to_string(), v.abs())])]));
+                }
+                emit(req_dt(&(v, vec![("x".to_string(), v.abs())])));
+                emit(req_dt(&(1.0, vec![("x".to_string(), v)])));
+                emit(req_dm(&[v, v, -v, v]));
+            }
+            let z = f64::from_bits(d.unsigned_abs()) * if d < 0 { -1.0 } else { 1.0 };
+            emit(req_ds(None, Some('x'), &[z, z, 1.0]));
+            emit(req_di(None, &[(z, vec![("x".to_string(), z)]), (1.0, vec![("y".to_string(), -z)])]));
+            emit(req_dt(&(z, vec![("x".to_string(), z)])));
+        }
+        // default formatting (the "identical" clause) gets its own share of these
+        for k in 1..=17 {
+            for base in [1.0f64, 0.0, -1.0, 2.0] {
+                for _ in 0..3 {
+                    let (c1, b1) = (*rng.pick(&[1.0, -1.0, 2.0, -0.5, 1.0]), *rng.pick(&[1.0, -1.0, 0.0]));
+                    let t: TermSpec = (c1, vec![(rng.pick(&["x", "y", "t", "A"]).to_string(), near(&mut rng, base, k))]);
+                    let u: TermSpec = (near(&mut rng, b1, k), vec![("x".to_string(), near(&mut rng, base, k)), ("y".to_string(), 1.0)]);
+                    emit(req_di(None, &[t.clone(), u.clone()]));
+                    emit(req_dt(&t));
+                    emit(req_dt(&u));
+                }
+            }
+        }
+        let negs = [-1.0, -2.0, -0.5, -0.004, -0.005, -0.995, -9.996, -12.0, -1.0 / 3.0, -2.5, -0.0, -1e-9, -123.456, -0.9999999, -1.0000001];
+        for e in negs {
+            for prec in &precs {
+                for c in [1.0, -1.0, 2.5, -0.0, 0.0] {
+                    let t: TermSpec = (c, vec![("x".to_string(), e)]);
+                    let u: TermSpec = (-c, vec![("a".to_string(), -e), ("y".to_string(), e)]);
+                    emit(req_di(*prec, &[t.clone(), u.clone()]));
+                    if prec.is_none() {
+                        emit(req_dt(&t));
+                        emit(req_dt(&u));
+                    }
+                }
+            }
+        }
+    }
+    // ---- (2) rounding carries: the digit after the requested precision is a 5 / 9 run ("9.996" at {:.2}, "0.9995"
+    //      at {:.3}, "99.5" at {:.0}), so the printed text gains an integer digit or becomes exactly 1 / 0 / 10
+    let carries = [
+        9.996, 0.9995, 99.995, 0.095, 0.95, 0.5, 1.5, 2.5, 0.25, 0.35, 9.5, 99.5, 0.99999999, 19.999, 0.0005, 0.00049, 999.9996, 0.045,
+        1.0000001, 0.9999999, 0.96, 0.996, 0.99996, 0.999995, 9.999995, 0.4, 0.6, 0.05, 0.005, 0.0000005, 1.05, 1.005, 10.5, 0.1 + 0.2,
+        1e15 + 0.5, 4.35, 8.345, 1.45, 0.15, 0.000999, 999.5, 9999.99995, 0.49999999999999994, 0.99999999999999989, 1.0000000000000002,
+    ];
+    for (vi, v) in carries.iter().enumerate() {
+        for prec in &precs {
+            for sign in [1.0, -1.0] {
+                let c = sign * v;
+                // univariate: the value as constant, linear and higher coefficient
+                let var = *rng.pick(&[Some('x'), Some('y'), Some('t'), Some('Q'), Some('λ')]);
+                emit(req_ds(*prec, var, &[c, c, -c, 0.0, c]));
+                // multivariate: the value as coefficient and as exponent
+                let t: TermSpec = (c, vec![("x".to_string(), c)]);
+                let u: TermSpec = (1.0, vec![("a".to_string(), *v), ("y".to_string(), -v)]);
+                emit(req_di(*prec, &[t.clone(), u, (c, vec![])]));
+                if prec.is_none() && sign > 0.0 {
+                    emit(req_dt(&t));
+                }
+            }
+        }
+        // the fitted-model string has its own five decimals: carries around the fifth decimal
+        let w = [0.999995, 9.999995, 0.000005, 0.0000049, 1.000005, 0.999994, 0.0000051, 99.999995, 0.123455, 0.123465, 1.0000049, 0.9999951];
+        let a = w[vi % w.len()];
+        emit(req_dm(&[a, -a, *v, -v, a]));
+        emit(req_dm(&[-a, 1.0, -1.0, a]));
+    }
+    // ---- (3) long lists: 9..40 coefficients / terms (each length at least once), a few much longer
+    let mut lens: Vec<usize> = (9..=40).collect();
+    lens.extend([63, 64, 65, 100, 129, 257]);
+    for _ in 0..rounds {
+        for (li, len) in lens.iter().enumerate() {
+            let prec = precs[(li * 7 + rng.below(19) as usize) % precs.len()];
+            let cs: Vec<f64> = (0..*len).map(|_| gen_coef(&mut rng)).collect();
+            let var = *rng.pick(&[Some('x'), Some('z'), Some('W'), None]);
+            emit(req_ds(prec, var, &cs));
+            emit(req_ds(None, var, &cs));
+            // only the last coefficients non-zero / only the first
+            let mut sparse = vec![0.0; *len];
+            sparse[*len - 1] = gen_coef(&mut rng);
+            sparse[0] = gen_coef(&mut rng);
+            emit(req_ds(prec, var, &sparse));
+            let terms: Vec<TermSpec> = (0..(*len).min(60))
+                .map(|_| {
+                    let vars = letters_subset(&mut rng, 4).into_iter().map(|l| (l, gen_exp(&mut rng))).collect();
+                    (gen_coef(&mut rng), vars)
+                })
+                .collect();
+            emit(req_di(prec, &terms));
+            emit(req_di(None, &terms));
+            if *len <= 40 {
+                let ms: Vec<f64> = (0..*len).map(|_| if rng.chance(1, 6) { *rng.pick(&[1.0, -1.0, 0.0]) } else { gen_coef(&mut rng) }).collect();
+                emit(req_dm(&ms));
+            }
+        }
+    }
+    // ---- (4) extreme magnitudes (subnormal, smallest normal, largest finite) with precision None, 0, 1, 17
+    let extremes = [f64::from_bits(1), f64::from_bits(0xfffff), f64::MIN_POSITIVE, 1e-308, 1e-300, 1e300, 1e308, f64::MAX, 2f64.powi(-70), 2f64.powi(60), 2f64.powi(1000)];
+    for v in extremes {
+        for prec in [None, Some(0), Some(1), Some(17)] {
+            for sign in [1.0, -1.0] {
+                let c = sign * v;
+                emit(req_ds(prec, Some('x'), &[c, -c, c]));
+                emit(req_di(prec, &[(c, vec![("x".to_string(), 2.0)]), (-c, vec![])]));
+                if v.abs() < 1e30 || v == 1e300 {
+                    emit(req_di(prec, &[(1.0, vec![("x".to_string(), c)]), (2.0, vec![("y".to_string(), -c)])]));
+                }
+                emit(req_dm(&[c, -c, c]));
+            }
+        }
+        emit(req_dt(&(v, vec![("x".to_string(), -v.min(1e30))])));
+    }
+    // ---- (5) precisions beyond 17 (out of the statement's range: compared with the model, and judged with the same
+    //      half-unit rule, which the exact decimal expansion satisfies)
+    for prec in [18usize, 19, 20, 25, 32, 60, 64, 100, 255, 256, 257, 300] {
+        let cs: Vec<f64> = (0..5).map(|_| gen_coef(&mut rng)).collect();
+        emit(req_ds(Some(prec), Some('x'), &cs));
+        emit(req_ds(Some(prec), Some('x'), &[0.1, 1.0, -1.0, 0.5, 1.0 / 3.0]));
+        emit(req_di(Some(prec), &[(1.0 / 3.0, vec![("x".to_string(), 0.1), ("y".to_string(), -2.0)]), (-1.0, vec![("y".to_string(), 1.0)]), (0.7, vec![])]));
+    }
+    // ---- (6) formatter flags other than the precision (sign, width, fill, alignment, zero padding, alternate) and
+    //      Term with a precision: the printers ignore them
+    let n = if thorough { 6000 } else { 500 };
+    for i in 0..n {
+        let flags = 1 + (i % 8) as u32;
+        let prec = precs[(i / 8) % precs.len()];
+        match i % 3 {
+            0 => {
+                let len = rng.below(6) as usize;
+                let cs: Vec<f64> = (0..len).map(|_| gen_coef(&mut rng)).collect();
+                emit(format!("{} | fmt {flags}", req_ds(prec, *rng.pick(&[Some('x'), Some('y'), None]), &cs)));
+            }
+            1 => {
+                let nt = rng.below(4) as usize;
+                let terms: Vec<TermSpec> = (0..nt)
+                    .map(|_| (gen_coef(&mut rng), letters_subset(&mut rng, 3).into_iter().map(|l| (l, gen_exp(&mut rng))).collect()))
+                    .collect();
+                emit(format!("{} | fmt {flags}", req_di(prec, &terms)));
+            }
+            _ => {
+                let t: TermSpec = (gen_coef(&mut rng), letters_subset(&mut rng, 3).into_iter().map(|l| (l, gen_exp(&mut rng))).collect());
+                emit(format!("{} | fmt {flags} {}", req_dt(&t), prec_tok(prec)));
+                // precision alone: the statement's "single term ... for every formatter precision"
+                emit(format!("{} | fmt 0 {}", req_dt(&t), prec_tok(prec)));
+            }
+        }
+    }
+    for v in carries {
+        for prec in &precs {
+            let t: TermSpec = (v, vec![("x".to_string(), -v)]);
+            emit(format!("{} | fmt 0 {}", req_dt(&t), prec_tok(*prec)));
         }
     }
 }
